@@ -1,6 +1,6 @@
 SPECIFICATION Spec
 CONSTANTS
-  Deltas = {-2, -1, 1, 2, 7}
+  Deltas <- DeltasQuick
   Pairwise = FALSE
   MaxLabel = 63
   MaxName = 255
